@@ -25,7 +25,6 @@ from .. import harness as H
 NAMES = {1: "nB7", 2: "mQ4"}
 THREAD_PREFIX = {"retry": "RetryExecutor-", "poll": "PollExecutor-", "throttle": "ThrottleExecutor-",
                  "timeout": "TimeoutExecutor-", "pool": "ThreadPoolExecutor-"}
-SCRIPTS = {"V": "V", "EV": "EV", "EEV": "EEV", "EEE": "EEE", "F": "F", "EF": "EF"}
 
 
 class Val(object):
